@@ -54,6 +54,7 @@ func runC18(c *Config, r *Report) {
 	c18R8(prog, pk, r)
 	c18R9(prog, pk, r)
 	c18R10and11(prog, pk, r)
+	c18R12(prog, pk, r)
 	// the loop over scope names and the type switch over the object
 	var ts *ast.TypeSwitchStmt
 	var loop *ast.RangeStmt
@@ -1076,4 +1077,98 @@ func c18R10and11(prog *Prog, pk *packages.Package, r *Report) {
 	}
 	r.Check(len(writes) == 0, "R18.11", "extract/no-state-between-extractions", "", fmt.Sprintf("%d functions, none writes package-level state", nFn),
 		"package extract keeps state between extractions: "+strings.Join(writes, "; ")+". What is remembered for one package is replayed for the next without its side effects (the imports a literal needs, the qualifier of the package being generated): the second generated file does not compile or binds another package's value")
+}
+
+func init() {
+	ruleText["R18.12"] = "an import of the generated file is registered exactly where the text that needs it is produced: in package extract every statement registering a literal import path (m[\"go/constant\"] = true) is followed, in its own block and before any other return, by a return whose expression contains a string literal mentioning that package (constant.) - an import registered on a path that does not produce such text is an unused import, and the generated wrapper does not compile. The converse (text using a package whose import is not registered) is not decided: the registration may legitimately be made by a caller"
+}
+
+// c18R12: round-8 seed. The registration of go/constant and go/token moved from fixConst to its
+// caller, for every untyped constant: a package whose untyped constants are all printed by name
+// (booleans, complex) got two unused imports.
+func c18R12(prog *Prog, pk *packages.Package, r *Report) {
+	info := pk.TypesInfo
+	type reg struct {
+		path, base string
+		stmt       *ast.AssignStmt
+		fn         *ast.FuncDecl
+	}
+	var regs []reg
+	bases := map[string]string{}
+	for _, file := range pk.Syntax {
+		for _, d := range file.Decls {
+			fd, ok := d.(*ast.FuncDecl)
+			if !ok || fd.Body == nil {
+				continue
+			}
+			ast.Inspect(fd.Body, func(q ast.Node) bool {
+				as, ok := q.(*ast.AssignStmt)
+				if !ok || len(as.Lhs) != 1 || len(as.Rhs) != 1 {
+					return true
+				}
+				ix, ok := unparen(as.Lhs[0]).(*ast.IndexExpr)
+				if !ok {
+					return true
+				}
+				if m, ok := info.TypeOf(ix.X).Underlying().(*types.Map); !ok || types.TypeString(m.Elem(), nil) != "bool" {
+					return true
+				}
+				lit, ok := unparen(ix.Index).(*ast.BasicLit)
+				if !ok || lit.Kind != token.STRING {
+					return true
+				}
+				if id := identOf(as.Rhs[0]); id == nil || id.Name != "true" {
+					return true
+				}
+				p := strings.Trim(lit.Value, "\"`")
+				b := p[strings.LastIndex(p, "/")+1:]
+				regs = append(regs, reg{p, b, as, fd})
+				bases[b] = p
+				return true
+			})
+		}
+	}
+	mentions := func(e ast.Node, base string) bool {
+		found := false
+		ast.Inspect(e, func(z ast.Node) bool {
+			if l, ok := z.(*ast.BasicLit); ok && l.Kind == token.STRING && strings.Contains(l.Value, base+".") {
+				found = true
+			}
+			return true
+		})
+		return found
+	}
+	// (i)
+	for i, g := range regs {
+		path := enclosingPath(g.fn.Body, g.stmt)
+		var blk *ast.BlockStmt
+		for j := len(path) - 1; j >= 0; j-- {
+			if b, ok := path[j].(*ast.BlockStmt); ok {
+				blk = b
+				break
+			}
+		}
+		ok := false
+		if blk != nil {
+			after := false
+			for _, s := range blk.List {
+				if s == ast.Stmt(g.stmt) {
+					after = true
+					continue
+				}
+				if !after {
+					continue
+				}
+				if rs, isRet := s.(*ast.ReturnStmt); isRet {
+					ok = mentions(rs, g.base)
+					break
+				}
+			}
+		}
+		r.Check(ok, "R18.12", fmt.Sprintf("%s/import:%s#%d/registered-where-it-is-used", g.fn.Name.Name, g.path, i+1), prog.pos(g.stmt.Pos()), "the registration is followed by the return of a text using the package",
+			g.fn.Name.Name+" registers the import "+g.path+" at "+prog.pos(g.stmt.Pos())+" but the next return of its block does not produce text mentioning "+g.base+".: the import is added to generated files that do not use it (a package whose untyped constants are all printed by name), and the wrapper does not compile (imported and not used)")
+	}
+	if len(regs) < 2 {
+		r.Errorf("R18.12: only %d registrations of literal import paths found in package extract (go/constant and go/token expected)", len(regs))
+	}
 }
